@@ -7,6 +7,7 @@ import (
 	"encoding/json"
 	"fmt"
 	"os"
+	"runtime/debug"
 	"sort"
 	"strconv"
 	"strings"
@@ -54,46 +55,46 @@ func progHash(p *Program) string {
 
 // ReplayFile is what a violation is reported as.
 type ReplayFile struct {
-	Property  string             `json:"property"`
-	BaseSeed  uint64             `json:"base_seed"`
-	RunIndex  int                `json:"run_index"`
-	RunSeed   uint64             `json:"run_seed"`
-	Tier      string             `json:"tier"`
-	Class     string             `json:"violation_class"`
-	Violation []string           `json:"violation"`
-	Program   *Program           `json:"program"`
-	Tape      []uint32           `json:"tape"`
-	Minimised bool               `json:"minimised"`
-	OrigOps   int                `json:"original_ops"`
-	OrigTape  int                `json:"original_tape_len"`
-	Trace     []string           `json:"trace,omitempty"`
-	History   []string           `json:"history,omitempty"`
-	Stats     simrt.Stats        `json:"stats"`
-	Known     string             `json:"known_finding,omitempty"`
-	ShrinkRuns int               `json:"shrink_runs"`
+	Property   string      `json:"property"`
+	BaseSeed   uint64      `json:"base_seed"`
+	RunIndex   int         `json:"run_index"`
+	RunSeed    uint64      `json:"run_seed"`
+	Tier       string      `json:"tier"`
+	Class      string      `json:"violation_class"`
+	Violation  []string    `json:"violation"`
+	Program    *Program    `json:"program"`
+	Tape       []uint32    `json:"tape"`
+	Minimised  bool        `json:"minimised"`
+	OrigOps    int         `json:"original_ops"`
+	OrigTape   int         `json:"original_tape_len"`
+	Trace      []string    `json:"trace,omitempty"`
+	History    []string    `json:"history,omitempty"`
+	Stats      simrt.Stats `json:"stats"`
+	Known      string      `json:"known_finding,omitempty"`
+	ShrinkRuns int         `json:"shrink_runs"`
 }
 
 // WorkerOut is what one worker process reports to the driver.
 type WorkerOut struct {
-	Worker      int                `json:"worker"`
-	Runs        int                `json:"runs"`
-	Steps       int64              `json:"steps"`
-	SimNs       int64              `json:"sim_ns"`
-	WallMs      int64              `json:"wall_ms"`
-	Preempt     int64              `json:"preemptions"`
-	Truncated   int                `json:"truncated"`
-	Leaked      int                `json:"leaked"`
-	Interesting int                `json:"interesting"`
-	Distinct    []string           `json:"distinct"` // hashes of (program, signature) of interesting runs
-	Faults      map[string]int64   `json:"faults"`
-	Probes      map[string]int64   `json:"probes"`
-	Strategies  map[string]int     `json:"strategies"`
-	Stacks      map[string]int     `json:"stacks"`
-	Samples     []json.RawMessage  `json:"samples"`
-	Violation   *ReplayFile        `json:"violation,omitempty"`
-	Known       []string           `json:"known,omitempty"`
-	Infra       string             `json:"infra,omitempty"`
-	Hashes      []string           `json:"hashes,omitempty"`
+	Worker      int               `json:"worker"`
+	Runs        int               `json:"runs"`
+	Steps       int64             `json:"steps"`
+	SimNs       int64             `json:"sim_ns"`
+	WallMs      int64             `json:"wall_ms"`
+	Preempt     int64             `json:"preemptions"`
+	Truncated   int               `json:"truncated"`
+	Leaked      int               `json:"leaked"`
+	Interesting int               `json:"interesting"`
+	Distinct    []string          `json:"distinct"` // hashes of (program, signature) of interesting runs
+	Faults      map[string]int64  `json:"faults"`
+	Probes      map[string]int64  `json:"probes"`
+	Strategies  map[string]int    `json:"strategies"`
+	Stacks      map[string]int    `json:"stacks"`
+	Samples     []json.RawMessage `json:"samples"`
+	Violation   *ReplayFile       `json:"violation,omitempty"`
+	Known       []string          `json:"known,omitempty"`
+	Infra       string            `json:"infra,omitempty"`
+	Hashes      []string          `json:"hashes,omitempty"`
 }
 
 func addStats(o *WorkerOut, res *RunResult) {
@@ -172,6 +173,9 @@ func TestWorker(t *testing.T) {
 	out := &WorkerOut{Worker: envInt("VERIF_WORKER", 0), Faults: map[string]int64{}, Probes: map[string]int64{}, Strategies: map[string]int{}, Stacks: map[string]int{}}
 	outPath := os.Getenv("VERIF_OUT")
 	defer func() {
+		if r := recover(); r != nil {
+			out.Infra = fmt.Sprintf("harness panic: %v\n%s", r, debug.Stack())
+		}
 		if outPath != "" {
 			b, _ := json.Marshal(out)
 			os.WriteFile(outPath, b, 0o644)
